@@ -6,6 +6,7 @@ import struct
 from vlib.engine import Case
 from . import corpus as K
 from . import e2e, geomgen as G
+from . import topo2
 
 ID = "C06"
 LEVEL = "proof"
@@ -18,8 +19,12 @@ RULE = ("generated geometries x option sets (both APIs, all methods) with a HIST
         "Decoder object after decoding the history streams, reused DecoderBuffer object, all streams back to back in "
         "ONE DecoderBuffer (read position must land on the next stream), 0..64 (and 100 / 1024) trailing bytes of "
         "zeros / 0xff / random (result, consumed bytes and remaining_size() must not change), consumed == stream "
-        "length; targeted families: speed-derived method with speed crossing 10, very sparse huge rANS alphabets at "
-        "the end of the stream, kd-tree; corpus streams (legacy writers) through op `det_dec`. Cross-process: the "
+        "length; a history of the caller's own use of the reused EncoderBuffer through its public API (scalars, blocks, "
+        "bit sequences with / without stored size, Resize, Clear: token bufhist); mesh pool includes tori, genus-2 "
+        "surfaces, holed tori, grid patches (topology split events); targeted families: speed-derived method with "
+        "speed crossing 10, very sparse huge rANS alphabets at the end of the stream, kd-tree with far-from-zero signed "
+        "attributes last, meshes whose first attribute is NOT POSITION under Edgebreaker single-connectivity mode "
+        "(speed >= 6 / split_mesh_on_seams), Edgebreaker on handle-rich topologies into application-used buffers; corpus streams (legacy writers) through op `det_dec`. Cross-process: the "
         "same op file in separate processes under ASLR on/off, MALLOC_PERTURB_ 0/165/255, MALLOC_ARENA_MAX=1, "
         "MALLOC_MMAP_THRESHOLD_ 4096 / 1 GiB, two pre-fragmented dirty heaps: every output line must be identical; "
         "thorough: a subset under valgrind memcheck (undefined-value errors end the run); non-trivial = distinct op line")
@@ -105,8 +110,38 @@ def sparse_alphabet_cloud(rng):
     return G.Geom(False, n, [], [a])
 
 
+def mesh_on(rng, fam, nv, faces, specs=None):
+    """geomgen.rand_mesh (attribute layouts, seams, point de-duplication) on a GIVEN topology"""
+    orig = G.rand_topology
+    G.rand_topology = lambda r, size: (fam, nv, list(faces))
+    try:
+        return G.rand_mesh(rng, 0, specs=specs)
+    finally:
+        G.rand_topology = orig
+
+
+def handle_mesh(rng, specs=None):
+    """tori, genus-2 surfaces, tori with holes, patches cut out of grids (topology split events), fans"""
+    fam, nv, faces = topo2.rand_topology2(rng)
+    return mesh_on(rng, "topo2_" + fam, nv, faces, specs)
+
+
+def position_later_specs(rng):
+    """attribute specs whose POSITION attribute is NOT attribute 0"""
+    specs = [sp for sp in G.rand_att_specs(rng, max_atts=4)]
+    pos = specs[0]
+    rest = specs[1:]
+    if not rest:
+        t, dts, ncs, nz = rng.choice(G.ATT_CHOICES[1:])
+        rest = [(t, G.DT[rng.choice(dts)], rng.choice(ncs), False, pos[4] + 1)]
+    k = rng.randint(1, len(rest))
+    return rest[:k] + [pos] + rest[k:]
+
+
 def rand_geom(rng, sizes_pc=(3, 10, 40, 150), sizes_mesh=(3, 8, 20, 60)):
     if rng.random() < 0.55:
+        if rng.random() < 0.3:
+            return handle_mesh(rng)
         return G.rand_mesh(rng, rng.choice(sizes_mesh))
     return G.rand_point_cloud(rng, rng.choice(sizes_pc))
 
@@ -133,6 +168,16 @@ def det_line(rng, family):
         g = rand_geom(rng, sizes_pc=(800, 2500), sizes_mesh=(250, 600)) if big else rand_geom(rng)
         while g.num_points == 0:
             g = rand_geom(rng)
+        if family == "poslater":
+            # meshes whose first attribute is not POSITION (loaders and the other generators always put it first)
+            specs = position_later_specs(rng)
+            g = None
+            while g is None or g.num_points == 0 or not g.faces:
+                g = handle_mesh(rng, specs) if rng.random() < 0.3 else G.rand_mesh(rng, rng.choice([8, 20, 60]), specs=specs)
+        if family == "ebtopo":
+            g = None
+            while g is None or g.num_points == 0 or not g.faces:
+                g = handle_mesh(rng)
         if family == "kd":
             specs = [(G.POSITION, G.DT["f32"], 3, False, 0)] + ([(G.COLOR, G.DT["u8"], 3, True, 1)] if rng.random() < 0.5 else [])
             g = G.rand_point_cloud(rng, rng.choice([1, 5, 64, 65, 200]), specs=specs, dedup_maps=False)
@@ -157,6 +202,16 @@ def det_line(rng, family):
         toks = det_options(rng, g, expert=expert)
         if family == "kd":
             toks = [t for t in toks if not t.startswith(("method=", "q", "x", "p"))] + ["method=1", f"q0={rng.choice([8, 11, 14])}"]
+        if family in ("poslater", "ebtopo"):
+            # Edgebreaker; poslater: single-connectivity mode (speed >= 6, or split_mesh_on_seams=1 below that)
+            toks = [t for t in toks if not t.startswith(("method=", "speed=", "g:split_mesh_on_seams"))]
+            if family == "poslater":
+                es = rng.choice([6, 7, 8, 9, 10]) if (not expert or rng.random() < 0.7) else rng.randint(0, 5)
+                if es < 6:
+                    toks.append("g:split_mesh_on_seams=1")
+            else:
+                es = rng.randint(0, 10)
+            toks += ["method=1", f"speed={es},{rng.randint(0, 10)}"]
         if family == "speedmethod":
             toks = [t for t in toks if not t.startswith(("method=", "speed="))]
             main_speed = rng.choice([10, rng.randint(0, 9)])
@@ -176,11 +231,13 @@ def det_line(rng, family):
                 th.append(f"speed={other if k == 0 or rng.random() < 0.5 else rng.randint(0, 10)},{rng.randint(0, 10)}")
             hist.append((th, gh))
         toks += [f"reps={reps}", trail_spec(rng)]
+        if family == "ebtopo" or rng.random() < 0.5:
+            toks.append(f"bufhist={rng.randrange(1, 1 << 30)}")
         tags = ("det", "family:" + family, "expert" if expert else "encoder", "mesh" if g.is_mesh else "pc", f"history:{len(hist)}")
     line = "det " + " ".join(toks) + " -- " + g.to_text()
     for th, gh in hist:
         # an ExpertEncoder is bound to one geometry: its history is a sequence of option changes
-        line += " -- " + " ".join(t for t in th if not t.startswith(("reps=", "trail="))) + " -- " + \
+        line += " -- " + " ".join(t for t in th if not t.startswith(("reps=", "trail=", "bufhist="))) + " -- " + \
                 (gh.to_text() if "expert=1" not in toks else "pc 1 0 - 0")
     return line, tags
 
@@ -255,7 +312,7 @@ def first_diff(a, b):
 def base_cases(rng, tier):
     cases = []
     n = 1800 if tier == "thorough" else 600
-    fams = ["general"] * 5 + ["speedmethod"] * 2 + ["kd"] * 2 + ["sparse"]
+    fams = ["general"] * 4 + ["speedmethod"] * 2 + ["kd"] * 2 + ["sparse"] + ["poslater"] * 2 + ["ebtopo"] * 2
     for i in range(n):
         fam = fams[i % len(fams)]
         line, tags = det_line(rng, fam)
